@@ -442,6 +442,52 @@ func syncProto(repo string) (string, string, error) {
 		}
 	}
 
+	// structural fact 11: every call of dialClientConn passes the scheme of THE REQUEST (isPlainHTTP(req), or the
+	// dialCall's plain field which getStartDialLocked fills from it) as its `plain` argument
+	pool, err := parseGo(repo, "internal/http2/client_conn_pool.go")
+	if err != nil {
+		return "", "", err
+	}
+	plainFromReq, nCalls := true, 0
+	okArg := func(e ast.Expr) bool {
+		if c, ok := e.(*ast.CallExpr); ok {
+			if id, ok := c.Fun.(*ast.Ident); ok && id.Name == "isPlainHTTP" && len(c.Args) == 1 {
+				if a, ok := c.Args[0].(*ast.Ident); ok && a.Name == "req" {
+					return true
+				}
+			}
+		}
+		return isSel(e, "c", "plain")
+	}
+	for _, f := range []*ast.File{pool, h2tr} {
+		ast.Inspect(f, func(x ast.Node) bool {
+			c, ok := x.(*ast.CallExpr)
+			if !ok {
+				return true
+			}
+			se, ok := c.Fun.(*ast.SelectorExpr)
+			if !ok {
+				return true
+			}
+			switch se.Sel.Name {
+			case "dialClientConn":
+				nCalls++
+				if len(c.Args) != 4 || !okArg(c.Args[3]) {
+					plainFromReq = false
+				}
+			case "getStartDialLocked":
+				nCalls++
+				if len(c.Args) != 3 || !okArg(c.Args[2]) {
+					plainFromReq = false
+				}
+			}
+			return true
+		})
+	}
+	if nCalls == 0 {
+		plainFromReq = false
+	}
+
 	var sb strings.Builder
 	sb.WriteString("(* GENERATED by harness/c12 gosync from transport.go, client.go, internal/http2/http2.go,\n   internal/http3/server.go, internal/http3/roundtrip.go - do not edit *)\n")
 	sb.WriteString("From ReqV Require Import Lib.Bytes.\nImport ListNotations.\n\n")
@@ -464,6 +510,7 @@ func syncProto(repo string) (string, string, error) {
 	fmt.Fprintf(&sb, "(* http3 dial / http2 newTLSConfig derive the tls.Config from the client's on every call *)\nDefinition h3_dial_config_per_dial : bool := %s.\nDefinition h2_config_per_dial : bool := %s.\n", hk.CoqBool(h3PerDial), hk.CoqBool(h2PerDial))
 	fmt.Fprintf(&sb, "(* Transport.EnableH2C assigns DialTLSContext *)\nDefinition h2c_installs_plain_dialtls : bool := %s.\n", hk.CoqBool(h2cInstalls))
 	fmt.Fprintf(&sb, "(* http2 dialClientConn dials http:// requests (h2c) without the TLS hooks *)\nDefinition h2_plain_dial_for_http : bool := %s.\n", hk.CoqBool(plainFirst))
+	fmt.Fprintf(&sb, "(* every dialClientConn / getStartDialLocked call derives `plain` from the request's scheme (%d call sites) *)\nDefinition h2_plain_from_request_scheme : bool := %s.\n", nCalls, hk.CoqBool(plainFromReq && plainParam))
 	return "ProtoTables.v", sb.String(), nil
 }
 
